@@ -236,9 +236,9 @@ Proof.
   { intros cf Ecf HLcf _. exact (sparse_rollback_ti p1 gs g1 w d o1 cf G HQS1 HJS1 HSX1 HS1 Ecf HLcf Hbnd1 HTI1). }
   exists gs'. split; [exact HQS'|]. split; [rewrite Ho, replay_hist_app, Hrep1; exact HTI'|]. split; [rewrite <- Hpe1, <- Hlh1; exact Hh'|]. split; [congruence|].
   split; [|split; [rewrite Ho, adv_frames_app, Hadv1, Hrep1; exact HTR'|]].
-  2:{ intros HO. destruct Hout' as (HO' & rounds & Q1 & Q2).
+  2:{ intros (HO & _). destruct Hout' as (HO' & HB' & rounds & Q1 & Q2).
       { intros Hr1. rewrite Hrm1 in Hr1. eapply OI_same; [exact (HO Hr1)|exact Hog1|exact Hls1|exact Hlh1|reflexivity]. }
-      split; [exact HO'|]. rewrite Q1, Hrs1. cbn [app]. rewrite <- Hlh1. exact Q2. }
+      split; [split; [exact HO'|exact HB']|]. rewrite Q1, Hrs1. cbn [app]. rewrite <- Hlh1. exact Q2. }
   apply (spec_sent_step predict predict_idem p gs gs' cf); [exact Hsok| | |congruence| |].
   - apply (cf_bound predict predict_idem _ w d p gs cf HQS). unfold confirmed_frame in *. rewrite <- Hst1. exact Ecf.
   - apply (hist_step_grows_gs _ _ _ _ _ Hh').
